@@ -118,4 +118,28 @@ Proof.
   unfold count_kept. generalize (hd fz s *f thr). intros c. induction s as [|x s IH]; intros H; [reflexivity|].
   cbn [filter]. rewrite (H x) by (now left). simpl. f_equal. apply IH. intros y Hy. apply H. now right.
 Qed.
+(* compress, fit, decompress: if a PARAFAC2 tensor represents the score matrix of slice i exactly, the decompressed tensor
+   represents the original slice (all singular values kept; SVD answer with its contract) *)
+Theorem compress_decompress_roundtrip rl thr X U s Vh score Lm w A B C Ps Ls w' A' B' C' Ps' i j k :
+  compress_slice Op rl thr X (U, s, Vh) = (score, Some Lm) ->
+  count_kept Op thr s = length s -> length Vh = length s -> rectb (length s) U = true ->
+  mget Op X j k = Sum (length s) (fun t => mget Op U j t *f (vget Op s t *f mget Op Vh t k)) ->
+  svd_decompress Op w A B C Ps Ls = Ok (w', [A'; B'; C'], Ps') -> i < length Ps -> nth i Ls None = Some Lm ->
+  length (nth i Ps []) = length score -> length B <= ncols (nth i Ps []) ->
+  (forall t, t < length score -> pf2_entry Op w A B C Ps i t k = mget Op score t k) ->
+  j < length U -> k < ncols score ->
+  pf2_entry Op w' A' B' C' Ps' i j k = mget Op X j k.
+Proof.
+  intros Ec Hc Hv Hu HX Ed Hi HL Hlen HB Hfit Hj Hk.
+  assert (LL : length Lm = length U).
+  { unfold compress_slice in Ec. destruct ((length X <=? rl) && feqb Op thr fz); [discriminate|].
+    injection Ec as _ <-. apply map_length. }
+  pose proof (svd_decompress_entry w A B C Ps Ls w' A' B' C' Ps' i j k Ed Hi) as D. rewrite HL in D.
+  rewrite D by (auto; lia). rewrite Hlen.
+  rewrite (sumn_ext Op _ _ (fun t => mget Op Lm j t *f mget Op score t k)).
+  2:{ intros t Ht. now rewrite Hfit. }
+  rewrite <- (mget_matmul Op) by (auto; lia).
+  pose proof (compress_slice_entry rl thr X U s Vh score (Some Lm) Ec) as Cc. cbv beta iota in Cc.
+  now apply Cc.
+Qed.
 End P.
